@@ -14,7 +14,7 @@ ROOT=/verif
 TGT=$ROOT/.target
 mkdir -p "$TGT/tmp" "$ROOT/evidence"
 
-BOTH_PROFILES="C03 C04 C05 C08 C14"
+BOTH_PROFILES="C03 C04 C05 C14"
 
 build_harness() { # $1 = profile
   local prof=$1 log="$TGT/tmp/build_harness_$1.log"
@@ -25,16 +25,23 @@ build_harness() { # $1 = profile
   fi
 }
 
+build_ws() { # $1 = workspace dir, $2 = profile
+  local ws=$1 prof=$2 log="$TGT/tmp/build_$1_$2.log"
+  if ! (cd $ROOT/$ws && cargo build --offline --profile "$prof" >"$log" 2>&1); then
+    echo "MACHINERY-ERROR $ws build ($prof) failed; see $log" >&2
+    grep -E "^error" -A8 "$log" | head -40 >&2
+    exit 2
+  fi
+}
+
 needs_dbg() { case " $BOTH_PROFILES " in *" $1 "*) return 0;; *) return 1;; esac; }
 
 if [ "${1:-}" = "--setup" ]; then
   build_harness release
   build_harness dbg
-  for ws in loomh rayonh; do
-    if [ -d $ROOT/$ws ]; then
-      (cd $ROOT/$ws && cargo build --offline --release >"$TGT/tmp/build_$ws.log" 2>&1) || { echo "MACHINERY-ERROR $ws build failed; see $TGT/tmp/build_$ws.log" >&2; exit 2; }
-    fi
-  done
+  build_ws loomh release
+  build_ws loomh dbg
+  build_ws rayonh release
   echo "setup ok"
   exit 0
 fi
@@ -56,7 +63,9 @@ case "$TIER" in quick|thorough) ;; *) echo "usage: run.sh <Cxx> <quick|thorough>
 build_harness release
 if needs_dbg "$ID"; then build_harness dbg; fi
 
-if [ "$ID" = "C08" ] && [ -x $ROOT/c08.sh ]; then
-  exec $ROOT/c08.sh "$TIER"
+if [ "$ID" = "C08" ]; then
+  build_ws loomh release
+  build_ws loomh dbg
+  build_ws rayonh release
 fi
 exec "$TGT/harness/release/firmc" "$ID" "$TIER"
